@@ -49,7 +49,7 @@ verus! {
                 == scan(aut, anchored, earliest, input.haystack@, fstart(anchored, input.span.start as int),
                         input.span.end as int, at as int, sid, mat),
         decreases input.span.end - at,
-//@@ after /let span = Span::from\([^;]*;/
+//@@ after /let span = [^;]*;/
                 proof {
                     // C19: the search advances monotonically — the prefilter is consulted from
                     // the current position only (never re-scanning bytes already passed)
